@@ -35,6 +35,7 @@ SDL = {
           argn(x: Int!): Int!
           echo(f: Float): Float
           sum(xs: [Float!], inp: Inp): Float
+          pick(c: Color, cs: [Color!], inp: Inp, n: Int, f: Float, s: String, b: Boolean, i: ID, t: Trim, ns: [Int]): Int
           t: Trim
           tn: Trim!
           tl: [Trim!]
@@ -45,7 +46,7 @@ SDL = {
         scalar Strict
         type Obj { a: Int, s: String!, f: Float, o: Obj, on: Obj!, ln: [Int!], id: ID!, lo: [Obj], tn: Trim!, tl: [Trim!] }
         enum Color { RED GREEN }
-        input Inp { a: Int!, b: [Inp2!], f: Float }
+        input Inp { a: Int!, b: [Inp2!], f: Float, c: Color }
         input Inp2 { a: Int, zz: String }
         type Mutation { set(x: Int): Int, fail: Int!, mo: Obj }
     """,
@@ -64,7 +65,7 @@ TYPES = {
     "A": {
         "Query": {"a": "Int", "s": "String!", "f": "Float", "fn": "Float!", "b": "Boolean", "o": "Obj",
                   "on": "Obj!", "l": "[Int]", "ln": "[Int!]!", "lf": "[Float]", "lo": "[Obj!]",
-                  "lol": "[[Obj]]", "e": "Color", "arg": "Int", "argn": "Int!", "echo": "Float", "sum": "Float",
+                  "lol": "[[Obj]]", "e": "Color", "arg": "Int", "argn": "Int!", "echo": "Float", "sum": "Float", "pick": "Int",
                   "t": "Trim", "tn": "Trim!", "tl": "[Trim!]", "tln": "[Trim!]!", "st": "Strict"},
         "Obj": {"a": "Int", "s": "String!", "f": "Float", "o": "Obj", "on": "Obj!", "ln": "[Int!]",
                 "id": "ID!", "lo": "[Obj]", "tn": "Trim!", "tl": "[Trim!]"},
@@ -697,6 +698,30 @@ RESOLVE_TYPE_CASES = [
      {"anys": ["value", [{"__rt_raise__": ["x", None]}]], "me/best": ["value", {"__rt_raise__": ["y", {"k": [1]}]}]}),
     ("{ me { friends { id } name } }", {"me/friends": ["value", [{"__typename__": "User"}, {"__rt_raise__": ["f", None]}]]}),
 ]
+
+# structurally wrong JSON of every kind at every leaf position of a variable (and leaf values at composite
+# positions): whatever is supplied, the response is well formed (a coercion error or an accepted value)
+JSON_KINDS = [[], [1], [[1]], ["RED"], {}, {"a": 1}, {"x": [1]}, True, False, 0, 7, 1.5, "str", "RED", "", None]
+
+
+def wrong_kind_variable_cases():
+    out = []
+    leaf = [("Color", "c"), ("Int", "n"), ("Float", "f"), ("String", "s"), ("Boolean", "b"), ("ID", "i"), ("Trim", "t"),
+            ("Color!", "c"), ("Int!", "n")]
+    for tname, arg in leaf:
+        text = "query Q($v: %s) { pick(%s: $v) }" % (tname, arg)
+        out.append((text, [{"v": p} for p in JSON_KINDS]))
+    out.append(("query Q($v: [Color!]) { pick(cs: $v) }",
+                [{"v": p} for p in JSON_KINDS] + [{"v": [p]} for p in JSON_KINDS] + [{"v": ["RED", p, "GREEN"]} for p in JSON_KINDS]))
+    out.append(("query Q($v: [Int]) { pick(ns: $v) }", [{"v": p} for p in JSON_KINDS] + [{"v": [1, p]} for p in JSON_KINDS]))
+    out.append(("query Q($v: Inp) { pick(inp: $v) }",
+                [{"v": p} for p in JSON_KINDS] + [{"v": {"a": 1, "c": p}} for p in JSON_KINDS]
+                + [{"v": {"a": p}} for p in JSON_KINDS] + [{"v": {"a": 1, "f": p}} for p in JSON_KINDS]
+                + [{"v": {"a": 1, "b": [{"a": p, "zz": p}]}} for p in JSON_KINDS] + [{"v": {"a": 1, "b": p}} for p in JSON_KINDS]))
+    out.append(("query Q($v: Inp!, $w: [Color!]!) { pick(inp: $v, cs: $w) }",
+                [{"v": {"a": 1, "c": p}, "w": [p]} for p in JSON_KINDS]))
+    return out
+
 
 OPNAME_CASES = [
     ("query A { a } query B { s }", [None, "A", "B", "C", ""]),
